@@ -263,7 +263,7 @@ def load_known_findings(prop):
     p = os.path.join(VERIF, 'known_findings.json')
     with open(p) as f:
         data = json.load(f)
-    return [e for e in data['findings'] if e['property'] == prop]
+    return [e for e in data['findings'] if e['property'] == prop or prop in e.get('also', [])]
 
 
 # ----------------------------------------------------------------------------------------------------
